@@ -3,9 +3,11 @@ UNITS = {'fs': dict(wrap='wrap.cc', new_block=64),
          # read_all: the internal block size `static const ssize_t read_size = 16 * 1024;` is not a macro; with the real value
          # no query returns (measured, see NOTES.md). The unit is built from a copy of Filesystem.cc in which that one
          # initialiser is VERIF_READ_SIZE (both builds, generated and real).
-         'fsrs4': dict(wrap='wrap.cc', new_block=160, cxxflags=['-DVERIF_READ_SIZE=4'], cuts=[r'^_ZN5phosg8io_errorC1Ei$'],
+         'fsrs4': dict(wrap='wrap.cc', new_block=64, cxxflags=['-DVERIF_READ_SIZE=4'], cuts=[r'^_ZN5phosg8io_errorC1Ei$'],
                        src_subst={'Filesystem.cc': [(r'static const ssize_t read_size = 16 \* 1024;', 'static const ssize_t read_size = VERIF_READ_SIZE;', 2)]}),
          # same TU; the cannot_open_file(const string&) constructor (what() text concatenation only) is an external no-op
+         'fsrs4b': dict(wrap='wrap.cc', new_block=160, cxxflags=['-DVERIF_READ_SIZE=4'], cuts=[r'^_ZN5phosg8io_errorC1Ei$'],  # >= 3 blocks: vector<string> storage 128 bytes
+                        src_subst={'Filesystem.cc': [(r'static const ssize_t read_size = 16 \* 1024;', 'static const ssize_t read_size = VERIF_READ_SIZE;', 2)]}),
          # phosg::fgets uses std::deque<std::string>: engine/shim deque (fixed capacity 8 blocks)
          # and 256-byte blocks (literals 0x100 / 0xFF, not macros). Real size: no verdict (LEN=0 > 40 min); the unit replaces
          # the literal(s) by VERIF_FGETS_BLOCK = 8 (patterns match the unpatched tree, 2+1 places, and the patched one, 1+0).
@@ -13,10 +15,27 @@ UNITS = {'fs': dict(wrap='wrap.cc', new_block=64),
                        cuts=[r'^_ZN5phosg8io_errorC1EiRKNSt7__cxx1112basic_string'],
                        src_subst={'Filesystem.cc': [(r'0x100', 'VERIF_FGETS_BLOCK', [1, 2]), (r'0xFF', '(VERIF_FGETS_BLOCK - 1)', [0, 1])]}),
          'fsx': dict(wrap='wrap.cc', new_block=64, cuts=[r'^_ZN5phosg16cannot_open_fileC1ERKNSt7__cxx1112basic_string'])}
-BOUNDS = ''
-STUBS = []
-OUTSIDE = []
-ASSUMPTIONS = []
+BOUNDS = ('read_all(fd)/read_all(FILE*): internal block size 4 (source: 16384, replaced by src_subst), source length 0..9 bytes (quick 0..5 / 0..8), '
+          'symbolic contents, every chunking in which each read() returns 1..min(requested, remaining) bytes, read fault at any call; '
+          'phosg::fgets: internal block size 8 (source: 256, replaced by src_subst), line lengths {0,1,5,6,7,8,13,14,15,21,22} with/without newline, '
+          'symbolic line bytes (no NUL), ::fgets failure at call 0/1/2 in dedicated cells; readx/writex/preadx/pwritex/freadx/fwritex/read/fread: '
+          'requested size 0..4, OS count any value in [-1,size]; basename/dirname: every path of 0..5 bytes; Poll: every history of <= 4 (quick 3) '
+          'add/remove over fds {3,4,5} with symbolic 16-bit masks; scoped_fd: every sequence of <= 4 (quick 3) operations of 10 kinds over 2 objects')
+STUBS = ['read/write/pread/pwrite: return a solver-chosen count (reads deliver that many bytes of a symbolic source), -1 = failure',
+         'fread/fwrite: C contract (h_rw: any count in [0,size]; h_readall_file: full count unless end of data)',
+         'fgets/feof/fileno: C contract over a symbolic byte stream (stops after newline or size-1 bytes, NUL-terminates, NULL+EOF flag at end of data, NULL without EOF flag on failure)',
+         'open/close: open hands out fresh descriptors or fails; close records its argument',
+         'vasprintf -> constant text "E", strerror_r -> no-op (generated C): exception message TEXT is not part of any claim',
+         'cut to no-ops in generated C (what() text formatting only): io_error(int) [read_all units], io_error(int, const string&) [fgets unit], cannot_open_file(const string&) [scoped_fd unit]',
+         'engine/shim/deque (capacity 8) for the block list of phosg::fgets']
+OUTSIDE = ['the real block sizes 16384 / 256: no query returns with them (NOTES.md has the measurements); block-boundary logic is decided for block sizes 4 / 8 substituted into a copy of Filesystem.cc',
+           'load_file/save_file (one read/write on a regular file: the property there is the kernel\'s), list_directory, recursive unlink, real pipes and writer timing',
+           'stream errors reported through ferror() for the fread-based helpers (fread returns a short count at EOF and on error alike; phosg does not call ferror)',
+           'lines containing NUL bytes (phosg::fgets measures blocks with strlen)',
+           'interrupted system calls: read() == -1/EINTR is treated as any other failure (io_error)']
+ASSUMPTIONS = ['read_all and phosg::fgets behave uniformly in their block-size constant: the only source change in units fsrs4/fsrs4b/fsfb8 is that constant (16 * 1024 -> 4, 0x100/0xFF -> 8/7), applied to both the solver build and the native real build',
+               'libc obeys the POSIX/C contracts encoded in the stubs',
+               'CBMC flag --max-field-sensitivity-array-size 0 (performance only)']
 
 # heap blocks are byte arrays of exactly new_block (64) elements = CBMC's default field-sensitivity limit; with symbolic
 # offsets into them per-element SSA symbols explode (measured: Poll 2 ops 65M variables / 38 GB vs 0.6M / 0.3 GB with 0)
@@ -27,40 +46,40 @@ RW = ['readx', 'readx_str', 'writex', 'writex_str', 'preadx', 'preadx_str', 'pwr
 def queries(tier):
     qs = []
     for L in range(0, 6):
-        qs.append(dict(name='path_len%d' % L, unit='fs', harness='h_path.c', defs={'LEN': L}, unwind=L + 18, timeout=300, mem_gb=4,
+        qs.append(dict(name='path_len%d' % L, unit='fs', harness='h_path.c', defs={'LEN': L}, unwind=L + 18, timeout=300, mem_gb=2,
                        desc='basename/dirname on %d symbolic bytes: definition via last slash and dirname+"/"+basename == p' % L,
                        bounds='path length == %d, all byte values' % L))
     for w, nm in enumerate(RW):
         for S in ([0, 1, 3] if tier == 'quick' else [0, 1, 2, 3, 4]):
-            qs.append(dict(name='rw_%s_size%d' % (nm, S), unit='fs', harness='h_rw.c', defs={'WHICH': w, 'SIZE': S}, unwind=40, timeout=300, mem_gb=4,
+            qs.append(dict(name='rw_%s_size%d' % (nm, S), unit='fs', harness='h_rw.c', defs={'WHICH': w, 'SIZE': S}, unwind=40, timeout=300, mem_gb=2,
                            desc='%s with requested size %d against an OS call returning any count in [-1,size]' % (nm, S),
                            bounds='size == %d, one OS call, symbolic contents' % S))
     for n in ([1, 2, 3] if tier == 'quick' else [1, 2, 3, 4]):
-        qs.append(dict(name='poll_ops%d' % n, unit='fs', harness='h_poll.c', defs={'NOPS': n}, unwind=42, timeout=600, mem_gb=6, flags=FS0,
+        qs.append(dict(name='poll_ops%d' % n, unit='fs', harness='h_poll.c', defs={'NOPS': n}, unwind=42, timeout=900, mem_gb=3, flags=FS0,
                        desc='Poll: every history of %d add/remove operations over fds {3,4,5}, symbolic event masks, vs a map model; poll_fds sorted and duplicate-free after every operation' % n,
                        bounds='%d operations, 3 descriptors' % n))
     for n in ([1, 2, 3] if tier == 'quick' else [1, 2, 3, 4]):
-        qs.append(dict(name='sfd_ops%d' % n, unit='fsx', harness='h_sfd.c', defs={'NOPS': n}, unwind=40, timeout=900, mem_gb=8, flags=FS0,
+        qs.append(dict(name='sfd_ops%d' % n, unit='fsx', harness='h_sfd.c', defs={'NOPS': n}, unwind=40, timeout=900, mem_gb=3, flags=FS0,
                        desc='scoped_fd: every sequence of %d operations (10 kinds, 2 objects, open may fail) vs an ownership model; every descriptor handed out is closed exactly once' % n,
                        bounds='%d operations, 2 objects' % n))
-    for S in ([0, 1, 2, 3, 4, 5] if tier == 'quick' else range(0, 10)):
-        qs.append(dict(name='readall_fd_rs4_len%d' % S, unit='fsrs4', harness='h_readall.c', defs={'S': S, 'RS': 4}, unwind=max(S, 4) + 4, timeout=900, mem_gb=10, flags=FS0, backend='cadical',
+    for S in ([0, 2, 5] if tier == 'quick' else range(0, 10)):
+        qs.append(dict(name='readall_fd_rs4_len%d' % S, unit='fsrs4' if S < 8 else 'fsrs4b', harness='h_readall.c', defs={'S': S, 'RS': 4}, unwind=max(S, 4) + 4, timeout=1500, mem_gb=7, flags=FS0, backend='cadical',
                        desc='read_all(fd) over a %d-byte symbolic source delivered in every possible chunking (each read returns 1..remaining bytes, then 0), optional read fault: result == source or io_error' % S,
                        bounds='source length == %d; <= %d read calls' % (S, S + 2)))
     for S in ([0, 3, 4, 5, 8] if tier == 'quick' else range(0, 10)):
-        qs.append(dict(name='readall_file_rs4_len%d' % S, unit='fsrs4', harness='h_readall_file.c', defs={'S': S, 'RS': 4}, unwind=max(S, 4) + 4, timeout=900, mem_gb=10, flags=FS0, backend='cadical',
+        qs.append(dict(name='readall_file_rs4_len%d' % S, unit='fsrs4' if S < 8 else 'fsrs4b', harness='h_readall_file.c', defs={'S': S, 'RS': 4}, unwind=max(S, 4) + 4, timeout=900, mem_gb=3, flags=FS0, backend='cadical',
                        desc='read_all(FILE*) over a %d-byte symbolic stream, fread per C contract (short only at EOF), block size 4: result == stream' % S,
                        bounds='stream length == %d, block size 4 (substituted for 16384)' % S))
     FB = 8
     JOIN = '_ZN5phosg4joinISt5dequeINSt7__cxx1112basic_stringIcSt11char_traitsIcESaIcEEEvEEES7_RKT_.0'
     cells = [(0, 0), (0, 1), (1, 1), (6, 1), (7, 0), (7, 1), (8, 1), (14, 1)] if tier == 'quick' else [(L, nl) for L in (0, 1, 5, 6, 7, 8, 13, 14, 15, 21, 22) for nl in (0, 1)]
     for L, nl in cells:
-        qs.append(dict(name='fgets_fb8_len%d_nl%d' % (L, nl), unit='fsfb8', harness='h_fgets.c', defs={'LEN': L, 'HAS_NL': nl, 'FB': FB}, unwind=max(L + 5, FB + 3), timeout=1500, mem_gb=10, flags=FS0, backend='cadical',
+        qs.append(dict(name='fgets_fb8_len%d_nl%d' % (L, nl), unit='fsfb8', harness='h_fgets.c', defs={'LEN': L, 'HAS_NL': nl, 'FB': FB}, unwind=max(L + 5, FB + 3), timeout=1500, mem_gb=7, flags=FS0, backend='cadical',
                        unwindset='%s:%d' % (JOIN, L // (FB - 1) + 4),  # the join loop runs once per block
                        desc='phosg::fgets (block size 8) on a line of %d symbolic bytes %s, ::fgets per C contract: the whole line, nothing more' % (L, 'newline-terminated + 2 following bytes' if nl else 'ended by end of data'),
                        bounds='line length == %d, block size 8 (substituted for 256)' % L))
     for L, nl, fa in ([(0, 1, 0), (9, 1, 1)] if tier == 'quick' else [(0, 1, 0), (9, 1, 1), (9, 0, 1), (16, 1, 2)]):
-        qs.append(dict(name='fgets_fb8_len%d_nl%d_fault%d' % (L, nl, fa), unit='fsfb8', harness='h_fgets.c', defs={'LEN': L, 'HAS_NL': nl, 'FB': FB, 'FAULT_AT': fa}, unwind=max(L + 5, 26), timeout=1500, mem_gb=10, flags=FS0, backend='cadical',
+        qs.append(dict(name='fgets_fb8_len%d_nl%d_fault%d' % (L, nl, fa), unit='fsfb8', harness='h_fgets.c', defs={'LEN': L, 'HAS_NL': nl, 'FB': FB, 'FAULT_AT': fa}, unwind=max(L + 5, 26), timeout=1500, mem_gb=7, flags=FS0, backend='cadical',
                        unwindset='%s:%d' % (JOIN, L // (FB - 1) + 4),
                        desc='phosg::fgets (block size 8), line of %d bytes, the %d-th ::fgets call fails without EOF: io_error, no partial line' % (L, fa),
                        bounds='line length == %d, block size 8' % L))
